@@ -82,7 +82,6 @@ class Recorder:
 
     def end_op(self, outcome):
         self._resolve()
-        self._reclassify_if_needed(outcome)
         self.ev("op-end", self.op.opi, outcome)
         op = self.op
         self.op = None
@@ -259,43 +258,6 @@ class Recorder:
                 self.ev("class", s.idx, s.kind)
             elif s.kind is None and s.status == "raised":
                 s.kind = "aborted"
-
-    def _reclassify_if_needed(self, outcome):
-        """The full/side classification above uses the identity of `solver.Qn`.  If the
-        solver does not expose its current state that way (no such attribute, or it is
-        only set at the end), fall back on the structure of the history itself: a step
-        is on the trajectory when it starts from the current trajectory state and a
-        later step starts from its output (or it is the last step of a returned call)."""
-        op = self.op
-        if op is None or self.direct or op.init_key is None:
-            return
-        oks = [s for s in op.steps if s.status == "ok"]
-        if not oks:
-            return
-        nfull_id = sum(1 for s in oks if s.kind == "full")
-        try:
-            nit = int(self.solver.nit())
-        except Exception:  # noqa
-            nit = None
-        has_qn = hasattr(self.solver, "Qn")
-        if has_qn and (nfull_id > 0 or not nit):
-            return
-        key = lambda d, t: (d, float(t).hex())
-        cur = op.init_key
-        allsteps = list(op.steps)
-        for s in oks:
-            if key(s.dig_in, s.t_in) != cur:
-                s.kind = "side"
-                continue
-            out = key(s.dig_out, s.t_out)
-            later = [x for x in allsteps if x.idx > s.idx]
-            if any(key(x.dig_in, x.t_in) == out for x in later) or (s is oks[-1] and outcome == "returned"):
-                s.kind = "full"
-                cur = out
-            else:
-                s.kind = "side"
-        op.classified_by = "chain"
-        self.ev("reclassified", tuple((s.idx, s.kind) for s in oks))
 
     # -- clock seam -----------------------------------------------------------
     def clock(self):
